@@ -301,6 +301,35 @@ Definition c_init (nl : nat) (size : nat) (init : list (Z * Z)) : cmap :=
 Definition comp_mem_step (nl : nat) := mach_step (c_lookup nl) (c_write nl).
 Definition comp_mem_run (nl : nat) := mach_run (c_lookup nl) (c_write nl).
 
+(* the emitted sim_run_step seen from one memory: lookups and guarded inserts executed in
+   place, in program order (inserts are NOT deferred: the C relies on emitting every
+   combinational net -- hence every lookup -- before the memory writes) *)
+Inductive c_ev :=
+| CLookup (a : Z)                   (*  dest[n] = lookup(mem, addr[0])[n];            *)
+| CInsert (w : wport).              (*  if (en[0]) { insert(mem, addr[0], data); }     *)
+
+Definition c_exec (nl : nat) (st : list Z * cmap) (e : c_ev) : list Z * cmap :=
+  match e with
+  | CLookup a => (fst st ++ [c_lookup nl (snd st) a], snd st)
+  | CInsert w => (fst st, c_write nl (snd st) w)
+  end.
+
+Definition c_prog_step (nl : nat) (h : cmap) (prog : list c_ev) : list Z * cmap :=
+  fold_left (c_exec nl) prog ([], h).
+
+Definition c_prog_reads (prog : list c_ev) : list Z :=
+  flat_map (fun e => match e with CLookup a => [a] | CInsert _ => [] end) prog.
+Definition c_prog_writes (prog : list c_ev) : list wport :=
+  flat_map (fun e => match e with CLookup _ => [] | CInsert w => [w] end) prog.
+
+Definition is_insert (e : c_ev) : bool := match e with CInsert _ => true | CLookup _ => false end.
+Fixpoint lookups_first (prog : list c_ev) : bool :=
+  match prog with
+  | [] => true
+  | CLookup _ :: r => lookups_first r
+  | CInsert _ :: r => forallb is_insert r
+  end.
+
 (* ------------------------------------------------------------------ *)
 (** * (iv) RomBlock._get_read_data                                      *)
 
